@@ -1111,10 +1111,10 @@ class Analyzer:
                 st.syms[v.sym[0]] = imeet(st.syms[v.sym[0]], ef["itv"])
             if v.key() != TOPV.key():
                 st.vals["_%d" % i] = v
-            for sub, itv in ef.get("fields", {}).items():
-                fsid = "a%d.%s" % (i, sub)
-                st.syms[fsid] = itv
-                st.vals[sub] = V(sym=(fsid, 0))
+        for sub, itv in (self.entry.get("fields") or {}).items():
+            fsid = "f:%s" % sub
+            st.syms[fsid] = itv
+            st.vals[sub] = V(sym=(fsid, 0))
         return st
 
     def run(self, max_iter=60):
